@@ -71,6 +71,27 @@ uint8_t cqv_old_dst_k;
 
 #include "src/compression/snappy.c"
 
+#ifdef CQV_OWN_MEM
+/* Same assumed contracts as stubs/mem_stubs.c (ranges accessible, destination bytes arbitrary), except
+ * that a memset covering a WHOLE object havocs the object in one step instead of byte-wise: the
+ * byte-wise havoc of the 32 KiB hash table of carquet_snappy_compress alone costs 1.2 M SAT variables.
+ * Jobs defining CQV_OWN_MEM use extra_sources=[] (no stubs/mem_stubs.c). */
+void *memcpy(void *dst, const void *src, size_t n) {
+  __CPROVER_precondition(__CPROVER_r_ok(src, n), "memcpy src readable");
+  __CPROVER_precondition(__CPROVER_w_ok(dst, n), "memcpy dst writable");
+  if (n != 0) __CPROVER_havoc_slice(dst, n);
+  return dst;
+}
+void *memset(void *dst, int c, size_t n) {
+  __CPROVER_precondition(__CPROVER_w_ok(dst, n), "memset dst writable");
+  if (n != 0) {
+    if (__CPROVER_POINTER_OFFSET(dst) == 0 && n == __CPROVER_OBJECT_SIZE(dst)) __CPROVER_havoc_object(dst);
+    else __CPROVER_havoc_slice(dst, n);
+  }
+  return dst;
+}
+#endif
+
 void h_c09_write_varint(void) {
   size_t n = nondet_size_t(), off = nondet_size_t();
   __CPROVER_assume(n <= CQV_MAXBUF && off <= n);
@@ -97,12 +118,6 @@ void h_c09_emit_copy(void) {
   __CPROVER_assume(cap <= CQV_MAXBUF && off <= cap);
   uint8_t *dst = malloc(cap);
   __CPROVER_assume(dst != NULL);
-#ifdef CQV_EXP1
-  __CPROVER_assume(len < 68);
-#endif
-#ifdef CQV_EXP2
-  __CPROVER_assume(off == 0);
-#endif
   uint8_t *r = snappy_emit_copy(dst + off, offset, len);
   CQV_CANARY("emit_copy returns");
 }
